@@ -473,3 +473,28 @@ func init() {
 		return Tuple{&cell, Iface{}}, true
 	}
 }
+
+func init() {
+	// AppendFormat(b, layout) = append(b, Format(layout)...): supported for an
+	// empty b (the common idiom), symbolic result as opaque bytes.
+	intrinsics["(time.Time).AppendFormat"] = func(in *Interp, fr *frame, a []Value) (Value, bool) {
+		b, ok := a[1].([]Value)
+		if !ok {
+			return nil, false
+		}
+		s, _ := intrinsics["(time.Time).Format"](in, fr, []Value{a[0], a[2]})
+		switch x := s.(type) {
+		case string:
+			out := append([]Value{}, b...)
+			for i := 0; i < len(x); i++ {
+				out = append(out, mkInt(uint64(x[i]), 8))
+			}
+			return out, true
+		case OStr:
+			if len(b) == 0 {
+				return OBytes{x.T}, true
+			}
+		}
+		panic(unsupported("time.AppendFormat of a symbolic time onto a non-empty buffer"))
+	}
+}
